@@ -56,14 +56,40 @@ def gen_cases(rng, n):
     return cases
 
 
+# Float thresholds of the integer-valued measures (filter_utils normalises them with
+# int(floor(.)) under EDIT_DISTANCE and int(ceil(.)) under OVERLAP): a systematic grid, compared
+# with the generated formulas like every other case; in addition the real result must be an int
+# (a float here would reach range() / a slice in the filters).
+FLOAT_THRESHOLDS = [2.0, 1.5, 0.5, 3.999999,                    # the repaired inputs
+                    0.0, -0.0, 1e-9, 1.0, 2.0000000000000004, 6.5, 1e3 + 0.25,
+                    4503599627370496.5, 9007199254740993.0, 1e300,     # beyond 2^52 / 2^53
+                    -0.5, -1.5,                                  # rejected by validate_threshold only
+                    float('inf'), float('-inf'), float('nan')]   # floor()/ceil() raise
+
+
+def float_grid_cases():
+    cases = []
+    for m in ('OVERLAP', 'EDIT_DISTANCE'):
+        for t in FLOAT_THRESHOLDS:
+            for size, size2, q in ((0, 0, 2), (1, 3, 1), (7, 9, 2), (12, 5, 3), (80, 77, 5), (3000, 12, 4)):
+                cases.append(('get_size_lower_bound', (size, m, t), 'float-grid'))
+                cases.append(('get_size_upper_bound', (size, m, t), 'float-grid'))
+                cases.append(('get_prefix_length', (size, m, t, q), 'float-grid'))
+                cases.append(('get_overlap_threshold', (size, size2, m, t, q), 'float-grid'))
+    return cases
+
+
 def coq_case(f, args, result):
     return 'pv_same (%s %s) %s' % (f, ' '.join(C.pyval_lit(a) for a in args), C.pyval_lit(result))
 
 
-def run(seed, n):
+def run(seed, n, float_grid=True):
     """Returns dict(evaluations, failing:list of case dicts, distribution)."""
+    import math
     rng = random.Random(seed)
     cases = gen_cases(rng, n)
+    if float_grid:
+        cases += float_grid_cases()
     exprs = []
     dist = {}
     results = []
@@ -79,6 +105,13 @@ def run(seed, n):
         f, args, tcls = cases[i]
         bad.append({'function': f, 'args': [a.hex() if isinstance(a, float) else a for a in args],
                     'impl_result': repr(results[i])})
+    # no float may leave the formulas of the integer-valued measures (finite float threshold)
+    for i, ((f, args, tcls), r) in enumerate(zip(cases, results)):
+        m, t = (args[2], args[3]) if f == 'get_overlap_threshold' else (args[1], args[2])
+        if m in ('OVERLAP', 'EDIT_DISTANCE') and isinstance(t, float) and math.isfinite(t) \
+                and not (type(r) is int):
+            bad.append({'function': f, 'args': [a.hex() if isinstance(a, float) else a for a in args],
+                        'impl_result': repr(r), 'note': 'non-int result for a float threshold'})
     distinct = len(set((f, tuple(map(repr, a))) for f, a, _ in cases))
     return {'evaluations': len(cases), 'distinct': distinct, 'failing': bad, 'distribution': dist,
             'samples': [{'function': f, 'args': [a.hex() if isinstance(a, float) else a for a in args],
